@@ -146,7 +146,7 @@ class Ctx:
 def stage_gen(ctx, st):
     """TLC enumerates the model, checks its invariants and emits cases; binder replays them."""
     fam = st["family"]
-    d = stage_specs(ctx.scratch, fam, st["name"])
+    d = stage_specs(ctx.scratch, st.get("specdir", fam), st["name"])
     cfg = write_cfg(d, st["cfg"], ctx.subst(st.get("consts")))
     tlclog = os.path.join(d, "tlc.log")
     summ = os.path.join(d, "summary.json")
@@ -210,7 +210,7 @@ def absorb_summary(ctx, st, s, info, wall, exhaustive):
 def stage_mc(ctx, st):
     """Pure design-level model checking (algorithm model against the definition); no binding."""
     fam = st["family"]
-    d = stage_specs(ctx.scratch, fam, st["name"])
+    d = stage_specs(ctx.scratch, st.get("specdir", fam), st["name"])
     cfg = write_cfg(d, st["cfg"], ctx.subst(st.get("consts")))
     cmd = tlc_cmd(d, st["module"], cfg, ctx.pick(st.get("workers", NCPU)), ctx.pick(st.get("tlc_extra", ())), xmx=st.get("xmx", "12g"))
     t = time.time()
@@ -233,7 +233,7 @@ def stage_mc(ctx, st):
 
 def run_trace_shard(ctx, st, shard, nshards, record_args, race=False):
     fam = st["family"]
-    d = stage_specs(ctx.scratch, fam, "%s_s%d" % (st["name"], shard))
+    d = stage_specs(ctx.scratch, st.get("specdir", fam), "%s_s%d" % (st["name"], shard))
     cfg = write_cfg(d, st["cfg"], ctx.subst(st.get("consts")))
     trace = os.path.join(d, "trace.ndjson")
     binder = ctx.binder_race if race else ctx.binder
